@@ -472,7 +472,23 @@ static int do_cart(const char *in, const char *outname) {
           }
         DensityGrid::iterator nit = std::get< 0 >(ngbs[j]);
         const long nfl = (nit == grid.end()) ? -1 : function.flat(nit.get_cell_midpoint());
-        rows.push_back(std::vector< long >{axis, sign, nfl});
+        // geometry of the tuple in lattice units (a cell has 4 units per axis): face midpoint and neighbour midpoint
+        // relative to the cell midpoint, face area; a value that is not the lattice value to 1e-7 is reported as 777777
+        const CoordinateVector<> cmid = order[c].get_cell_midpoint();
+        const CoordinateVector<> fmid = std::get< 1 >(ngbs[j]);
+        const CoordinateVector<> rel = std::get< 4 >(ngbs[j]);
+        std::vector< long > row{axis, sign, nfl};
+        auto lat = [](double x) {
+          const double r = std::round(x);
+          return (std::abs(x - r) < 1.e-7 * (1. + std::abs(x))) ? (long)r : 777777l;
+        };
+        for (int k = 0; k < 3; ++k)
+          row.push_back(lat(rel[k] / u[k]));
+        for (int k = 0; k < 3; ++k)
+          row.push_back(lat((fmid[k] - cmid[k]) / u[k]));
+        const int o1 = axis == 1 ? 1 : 0, o2 = axis == 3 ? 1 : 2;
+        row.push_back(axis ? lat(std::get< 3 >(ngbs[j]) / (u[o1] * u[o2])) : -1);
+        rows.push_back(row);
       }
       std::sort(rows.begin(), rows.end());
       out << (c ? "," : "") << "[";
